@@ -949,6 +949,37 @@ func (f *gov) genVotes(s *sc) {
 				})
 			}
 		}
+		if n >= 6 && h%2 == 0 {
+			// directed: some validators vote (below the threshold), then quit: they stay in the pool with status
+			// Quiting until the epoch change, N drops; their recorded votes must not count for the completing votes
+			cons := s.consensusNow()
+			k := len(cons) - 4
+			if k > 3 {
+				k = 3
+			}
+			idq := hx.Hex(r.Rng.Bytes(32))
+			dq := depositTok(5, 88, makeTxPayload(r.Rng.Bytes(32), r.Rng.Bytes(8), []byte{4}, 5, []byte{8}))
+			subq := r.Rng.Bytes(9)
+			castAll := func(v actor) {
+				s.do("vote %s %s %s", v.hex(), idq, v.hex())
+				s.do("deposit %s %s %s", v.hex(), v.hex(), dq)
+				s.do("sig %s %s 1 %s %s %s", v.hex(), v.hex(), hx.Hex(subq), hx.Hex(r.Rng.Bytes(2)), sha256hex(subq))
+				s.do("fee %s %s 9 0 %d", v.hex(), v.hex(), 100+r.Rng.Intn(50))
+			}
+			for _, v := range cons[:k] {
+				castAll(v)
+			}
+			for _, v := range cons[:k] {
+				for _, it := range f.w.now().curPool() {
+					if strings.ToLower(it.Pk) == v.pk {
+						s.do("quit %s %s %s", ahex(it.Addr), it.Pk, ahex(it.Addr))
+					}
+				}
+			}
+			for _, v := range cons[k:] {
+				castAll(v)
+			}
+		}
 		if h%3 == 1 {
 			// directed: the quorum event was emitted, the validator set changes, signatures keep coming
 			mkSig := func(sg, c string) string {
